@@ -367,10 +367,10 @@ func (y *Sys) teardown() {
 
 func (y *Sys) sampleUp() any {
 	type su struct {
-		Spec    string
-		Writes  int
-		Chunks  int
-		Points  int
+		Spec   string
+		Writes int
+		Chunks int
+		Points int
 	}
 	var out []su
 	for _, h := range y.Ups {
